@@ -350,7 +350,6 @@ func c06Apply(base *c06Base, muts []c06Mut) []byte {
 
 // ---- an independent Go re-statement of the scanner, used ONLY by the oracle to name finding classes
 type c06Frame struct {
-	panicCls   int // 0 none; 1 negative tgLen; 2 tgLen < 7; 3 STATUS id as last byte
 	abort      bool
 	sched      []int64          // ids with a non-nil body at the end of pass one, ascending
 	bodies     map[int64][]byte // their bodies
@@ -390,24 +389,16 @@ loop:
 			l := int64(binary.LittleEndian.Uint64(b[p:]))
 			lenb := b[p : p+8]
 			p += 8
-			if !(l < 1000*size) {
+			if !(l < 1000*size) || l < 8 { // insane: too large, or (since the fix) shorter than the id
 				if setBad() {
 					fr.abort = true
 					break loop
 				}
 				continue
 			}
-			if l < 0 {
-				fr.panicCls = 1
-				break loop
-			}
 			if int64(len(b)-p) < l {
 				delete(fr.bodies, 0)
 				present[0] = true
-				break loop
-			}
-			if l < 7 {
-				fr.panicCls = 2
 				break loop
 			}
 			body := b[p : p+int(l)]
@@ -461,11 +452,7 @@ loop:
 				fr.pruneOff = append(fr.pruneOff, at)
 			}
 		case 2:
-			if p >= len(b) {
-				fr.panicCls = 3
-				break loop
-			}
-			if len(b)-p < 10 {
+			if len(b)-p < 10 { // EOF or short read: the loop ends (since the fix also at EOF)
 				break loop
 			}
 			p += 10
@@ -702,13 +689,12 @@ func c06Run(raw json.RawMessage) (res Result, err error) {
 		fail("intact committed transaction(s) %v precede the damage at offset %d but were not applied (exit %d %s)", missing, d, obs.Code, obs.Err)
 	}
 	// executable mirrors of the Coq guards (finding classes), evaluated on the INPUT bytes
-	unparsable, applyErr := false, false
-	if startOK && fr.panicCls == 0 && !fr.abort {
+	applyErr := false
+	if startOK && !fr.abort {
 		for _, id := range fr.sched {
 			ok, aok := c06ParseOK(fr.bodies[id], root, base.files)
 			if !ok {
-				unparsable = true
-				break
+				continue // undecodable intact body: logged and skipped (since the fix)
 			}
 			if !aok {
 				applyErr = true
@@ -726,23 +712,15 @@ func c06Run(raw json.RawMessage) (res Result, err error) {
 	}
 	if !res.Holds {
 		switch {
-		case obs.Code == 2 && (fr.panicCls == 1 || fr.panicCls == 2):
-			res.Class = "tglen-out-of-range"
-		case obs.Code == 2 && fr.panicCls == 3:
-			res.Class = "status-mid-at-eof"
-		case obs.Code == 2 && unparsable:
-			res.Class = "intact-unparsable-tg"
 		case obs.Code != 2 && len(missing) > 0 && fr.abort:
 			res.Class = "duplicate-tgdata-aborts-replay"
 		case obs.Code != 2 && len(missing) > 0 && prunes:
 			res.Class = "unchecksummed-txninfo-prunes"
 		case obs.Code != 2 && len(missing) > 0 && applyErr:
 			res.Class = "apply-error-aborts-replay"
-		case obs.Code != 2 && len(missing) > 0 && !startOK && d < 11:
-			res.Class = "" // cannot happen: nothing precedes a damaged header
 		}
 	}
-	res.InDomain = startOK && fr.panicCls == 0 && !fr.abort && !unparsable && !applyErr && !prunes
+	res.InDomain = startOK && !fr.abort && !applyErr && !prunes
 	res.Tags = []string{fmt.Sprintf("code=%d", obs.Code), fmt.Sprintf("applied=%d", len(obs.Applied)), fmt.Sprintf("req=%d", len(req))}
 	for _, m := range in.Muts {
 		res.Tags = append(res.Tags, "op:"+m.Op)
@@ -757,9 +735,6 @@ func c06Run(raw json.RawMessage) (res Result, err error) {
 		res.Tags = append(res.Tags, "in-domain")
 	} else {
 		res.Tags = append(res.Tags, "outside-domain")
-	}
-	if fr.panicCls != 0 {
-		res.Tags = append(res.Tags, fmt.Sprintf("panic-class-%d", fr.panicCls))
 	}
 	if fr.abort {
 		res.Tags = append(res.Tags, "dup-abort")
@@ -779,17 +754,9 @@ func c06ParseOK(body []byte, root string, files map[string][]byte) (parsed, appl
 	copy(buf, body)
 	var wts []wal.WTSet
 	func() {
-		defer func() {
-			if recover() == nil {
-				parsed = true
-			}
-		}()
-		if len(buf) >= 16 {
-			if c := int64(binary.LittleEndian.Uint64(buf[8:])); c > 1<<20 && c <= c28MaxAlloc/c28SizeofWTSet {
-				panic("refused: gigabyte allocation")
-			}
-		}
+		defer func() { recover() }()
 		_, wts = executor.ParseTGData(buf, root)
+		parsed = wts != nil // (0, nil) is how the exported function reports an undecodable body
 	}()
 	if !parsed {
 		return false, false
